@@ -326,6 +326,7 @@ func c05Shapes(cfg Config, res *Result) {
 }
 
 func suiteC05(cfg Config, res *Result) {
+	c05SharedConcurrent(res)
 	c05ColdTypes(res)
 	defer c05RealLoaders(res)
 	c05Shapes(cfg, res)
